@@ -430,14 +430,20 @@ func clip(ss []string) []string {
 
 func run(rr *mon.Run) {
 	r = rr
-	r.Rule("scenarios = senders 1..8 x burst x post-send pause {0, 2, 5, 20 ms} x busy wait {0, 1, 10, 30, 50, 100, 500 ms} x control {0, 1} x arrival {idle, mid-pause, storm of 2..5}; senders saturate the client; Distinct = distinct scenario signatures that ran to completion (each contains a busy indication)")
+	r.Rule("scenarios = senders 1..8 x burst x post-send pause {0, 0.4, 1.25, 2, 2.4, 5, 5.3, 20 ms} x busy wait {0, 1, 10, 30, 50, 100, 500 ms} x control {0, 1} x arrival {idle, mid-pause, storm of 2..5}; senders saturate the client; Distinct = distinct scenario signatures that ran to completion (each contains a busy indication)")
 	rng := rand.New(rand.NewSource(r.Seed()*4447 + 7))
 	pauses := []time.Duration{0, 2 * time.Millisecond, 5 * time.Millisecond, 20 * time.Millisecond}
+	// every third round uses pauses that are not whole milliseconds
+	fractional := []time.Duration{400 * time.Microsecond, 2400 * time.Microsecond, 1250 * time.Microsecond, 5300 * time.Microsecond}
 	waits := []time.Duration{0, time.Millisecond, 10 * time.Millisecond, 30 * time.Millisecond, 50 * time.Millisecond, 100 * time.Millisecond, 500 * time.Millisecond}
 	whens := []string{"idle", "mid", "storm", "mid", "lost", "storm"}
 	n := r.Pick(72, 2400)
 	for i := 0; i < n && !r.Enough(); i++ {
-		sc := scenario{G: 1 + rng.Intn(8), Pause: pauses[i%4], Wait: waits[(i/4)%7], Control: uint16(i % 2), When: whens[(i/3)%6], Seed: r.Seed()*100000 + int64(i)}
+		pz := pauses[i%4]
+		if (i/4)%3 == 2 {
+			pz = fractional[i%4]
+		}
+		sc := scenario{G: 1 + rng.Intn(8), Pause: pz, Wait: waits[(i/4)%7], Control: uint16(i % 2), When: whens[(i/3)%6], Seed: r.Seed()*100000 + int64(i)}
 		if i%9 == 0 {
 			sc.G = 8
 		}
